@@ -41,7 +41,7 @@ func TestTqvWitness(t *testing.T) {
 	out := map[string]interface{}{
 		"obligation": "cmds/server/loader/yaml.YAML.Unmarshal/pre@gopkg.in/yaml.v3.Unmarshal#1.1",
 		"scenario":   "load A (prefix_deny 10.0.0.0/8), then B (no prefix_deny), compare with a fresh loader given B",
-		"error_B": fmt.Sprint(errB), "prefix_deny_after_reload": got.PrefixDeny, "prefix_deny_fresh": want.PrefixDeny,
+		"error_B":    fmt.Sprint(errB), "prefix_deny_after_reload": got.PrefixDeny, "prefix_deny_fresh": want.PrefixDeny,
 		"violated": !reflect.DeepEqual(got, want),
 	}
 	b, _ := json.Marshal(out)
